@@ -349,12 +349,15 @@ func (w *c40xWorld) checkIndexed(st *vs.S, nchecks int) {
 	// known finding (only if listed): the first "indexed" block begins in an unindexed map
 	// (see c40ClassTailPartial in the eth/filters harness)
 	if first > 0 && vs.Known("TestVerifC40Index", "first-indexed-block-partially-unindexed") {
-		f.indexLock.RLock()
-		p, err := f.getBlockLvPointer(first)
-		f.indexLock.RUnlock()
-		if err == nil && uint32(p>>f.logValuesPerMap) < r.maps.First() {
+		for { // the lowered first can lie several blocks below the first rendered map
+			f.indexLock.RLock()
+			p, err := f.getBlockLvPointer(first)
+			f.indexLock.RUnlock()
+			if err != nil || uint32(p>>f.logValuesPerMap) >= r.maps.First() {
+				break
+			}
 			st.Excluded()
-			w.tracef("first indexed block %d begins in unindexed map %d (known finding); skipped", first, p>>f.logValuesPerMap)
+			w.tracef("indexed block %d begins in unindexed map %d (known finding); skipped", first, p>>f.logValuesPerMap)
 			if first == last {
 				return
 			}
